@@ -409,6 +409,71 @@ Theorem C14_identity_vector : forall s args,
 Proof. exact vector_then_ref. Qed.
 Print Assumptions C14_identity_vector.
 
+Theorem C14_identity_make_vector : forall s k fill n,
+  values_are_refs s -> val_ok s k -> val_ok s fill -> called_with s [k; fill] ->
+  aindex (absv s k) = Some n -> n <= MAX_VEC ->
+  exists p s', call_builtin make_vector s = ROk (VPtr p) s' /\ values_are_refs s' /\
+    forall t k' i, hp t = hp s' -> st t = st s' ->
+      val_ok s k' -> aindex (absv s k') = Some i -> i < n ->
+      called_with t [VPtr p; k'] ->
+      exists r t', vector_ref t = ROk r t' /\ absv t' r = absv s fill.
+Proof. exact make_vector_then_ref. Qed.
+Print Assumptions C14_identity_make_vector.
+
+Theorem C14_identity_list_to_vector : forall fuel s v xs,
+  values_are_refs s -> val_ok s v -> called_with s [v] ->
+  achain (abs s) (absv s v) xs (AImm VNil) -> (length xs < fuel)%nat ->
+  exists p s', call_builtin (list_to_vector fuel) s = ROk (VPtr p) s' /\ values_are_refs s' /\
+    forall t k' i x, hp t = hp s' -> st t = st s' ->
+      val_ok s k' -> aindex (absv s k') = Some i -> nth_error xs (N.to_nat i) = Some x ->
+      called_with t [VPtr p; k'] ->
+      exists r t', vector_ref t = ROk r t' /\ absv t' r = x.
+Proof. exact list_to_vector_then_ref. Qed.
+Print Assumptions C14_identity_list_to_vector.
+
+(* ---------------------------------------------------------------------- equal? *)
+(* equal_spec.  On finite plain data ([adatum s x n]: booleans, characters, (), numbers,
+   symbols, strings, pairs, vectors; n bounds the depth, so the data is acyclic), with
+   interned symbols, equal? terminates with a fuel linear in the depth and answers #t
+   exactly when the two values are structurally equal ([aequal]: pairs and vectors by
+   contents, strings by text, numbers by eqv? — exact and inexact numbers are never equal,
+   fix F17 —, improper lists by their final cdr, the compare_pair fix). *)
+Theorem C14_equal_spec : forall s l r n fuel,
+  values_are_refs s -> sym_interned s -> val_ok s l -> val_ok s r ->
+  adatum s (absv s l) n -> adatum s (absv s r) n -> (2 * n + 2 < fuel)%nat ->
+  exists b, equal fuel l r s = ROk b s /\ (b = true <-> aequal s (absv s l) (absv s r)).
+Proof. exact equal_spec. Qed.
+Print Assumptions C14_equal_spec.
+
+Theorem C14_equal_builtin : forall fuel s a b n,
+  values_are_refs s -> sym_interned s -> val_ok s a -> val_ok s b ->
+  adatum s (absv s a) n -> adatum s (absv s b) n -> (2 * n + 2 < fuel)%nat ->
+  called_with s [a; b] ->
+  exists res s', equal_b fuel s = ROk (VBool res) s' /\
+    (res = true <-> aequal s (absv s b) (absv s a)) /\ hp s' = hp s /\ st s' = st s.
+Proof. exact equal_b_refines. Qed.
+Print Assumptions C14_equal_builtin.
+
+(* ------------------------------------------------------------------ predicates *)
+(* the type predicates answer a function of the abstract value and change nothing *)
+Theorem C14_predicates : forall s v, val_ok s v -> called_with s [v] ->
+  (exists s', is_pair_b s = ROk (VBool (akind_pair (absv s v))) s' /\ hp s' = hp s /\ st s' = st s) /\
+  (exists s', is_null s = ROk (VBool (akind_null (absv s v))) s' /\ hp s' = hp s /\ st s' = st s) /\
+  (exists s', is_vector s = ROk (VBool (akind_vector (absv s v))) s' /\ hp s' = hp s /\ st s' = st s) /\
+  (exists s', is_string s = ROk (VBool (akind_string (absv s v))) s' /\ hp s' = hp s /\ st s' = st s) /\
+  (exists s', is_symbol s = ROk (VBool (akind_symbol (absv s v))) s' /\ hp s' = hp s /\ st s' = st s) /\
+  (exists s', is_boolean s = ROk (VBool (akind_boolean (absv s v))) s' /\ hp s' = hp s /\ st s' = st s) /\
+  (exists s', is_char s = ROk (VBool (akind_char (absv s v))) s' /\ hp s' = hp s /\ st s' = st s) /\
+  (exists s', is_number s = ROk (VBool (akind_number (absv s v))) s' /\ hp s' = hp s /\ st s' = st s).
+Proof.
+  intros s v Hv H. repeat split.
+  - exact (pair_p_refines s v Hv H). - exact (null_p_refines s v Hv H).
+  - exact (vector_p_refines s v Hv H). - exact (string_p_refines s v Hv H).
+  - exact (symbol_p_refines s v Hv H). - exact (boolean_p_refines s v Hv H).
+  - exact (char_p_refines s v Hv H). - exact (number_p_refines s v Hv H).
+Qed.
+Print Assumptions C14_predicates.
+
 (* ======================================================================== OPEN *)
 (* Statements that are NOT proved yet.  They are kept here at full strength so that
    what is claimed above cannot be mistaken for the whole of C14; each is exercised by
@@ -434,14 +499,6 @@ Definition append_improper_stmt : Prop :=
                   (length xs + 1 < fuel)%nat) ->
   Forall (fun l => exists xs e, achain (abs s) (absv s l) xs e /\ (length xs + 1 < fuel)%nat) lists ->
   render_fail (call_builtin (append fuel) s).
-
-(* OPEN: equal_spec — on finite plain data (adatum: n bounds the depth) with interned
-   symbols, equal? decides structural equality [aequal]; fuel = a function of the bound *)
-Definition equal_spec_stmt : Prop :=
-  forall s l r n fuel,
-  values_are_refs s -> sym_interned s -> val_ok s l -> val_ok s r ->
-  adatum s (absv s l) n -> adatum s (absv s r) n -> (2 * n + 2 < fuel)%nat ->
-  exists b, equal fuel l r s = ROk b s /\ (b = true <-> aequal s (absv s l) (absv s r)).
 
 (* OPEN: list? — #t exactly for finite chains ending in (), #f for other finite chains,
    and (fix F11) #f for circular lists, with a fuel proportional to the number of pairs *)
